@@ -128,6 +128,9 @@ def correspondence(ctx):
                  "sized: well-formed files of 1 MiB-1, 1 MiB+1, 4 MiB, 8 MiB+1, 16 MiB-1, 16 MiB, 16 MiB+1 (both wrappers), 17 MiB, 33 MiB "
                  "(link with a long stdout by-product / many products, layout with a long readme), signed with an ed25519 key, dumped by the "
                  "library, loaded with both loaders, compared (length and SHA-256 of the canonical rendering) and the signature verified. "
+                 "io (oracle only): both loaders on a nonexistent path, a directory, an empty file, a blank file, a dangling symlink, a symlink to "
+                 "a directory, a path below a regular file: an error and no object claimed as loaded; both Dump methods to a path in a nonexistent "
+                 "directory, a directory, a path below a regular file: an error; to a writable path: nil and the file loads back. "
                  "non-trivial = every case (each has a non-empty document or metadata); distinct = distinct input JSON")
     _fuzz(ctx, corr)
     return corr
